@@ -89,6 +89,7 @@ type frame struct {
 	callOrd   map[string]int
 	errCalls  []errCall // for noswallow
 	preserved []snap
+	curIn     ssa.Instruction // call being executed
 	// map range loops of the top-level function: ghost visited sets
 	visitedName    map[*ssa.Range]string
 	visitedKeySort map[string]string
@@ -734,6 +735,25 @@ func (f *frame) objCells(ty types.Type, ref string) []cellRef {
 
 // static classification of store targets for loop mod-sets
 func (f *frame) storeComps(addr ssa.Value, out *modSet) {
+	var subComps func(ty types.Type, root ssa.Value)
+	subComps = func(ty types.Type, root ssa.Value) {
+		switch u := ty.Underlying().(type) {
+		case *types.Struct:
+			si := f.sr().structSort(ty)
+			for i := 0; i < u.NumFields(); i++ {
+				ft := u.Field(i).Type()
+				if _, ok := ft.Underlying().(*types.Struct); ok {
+					subComps(ft, root)
+				} else {
+					out.addSub(compField(si, i), arr1(si.fsorts[i]), root)
+				}
+			}
+		case *types.Array:
+			out.addSub(compMem(f.sortOf(u.Elem())), arr2(f.sortOf(u.Elem())), root)
+		default:
+			out.addSub(compBox(f.sortOf(ty)), arr1(f.sortOf(ty)), root)
+		}
+	}
 	var leafComps func(ty types.Type, ref ssa.Value)
 	leafComps = func(ty types.Type, ref ssa.Value) {
 		switch u := ty.Underlying().(type) {
@@ -742,7 +762,11 @@ func (f *frame) storeComps(addr ssa.Value, out *modSet) {
 			for i := 0; i < u.NumFields(); i++ {
 				ft := u.Field(i).Type()
 				if _, ok := ft.Underlying().(*types.Struct); ok {
-					leafComps(ft, nil)
+					if ref == nil {
+						leafComps(ft, nil)
+					} else {
+						subComps(ft, ref)
+					}
 				} else {
 					out.addAt(compField(si, i), arr1(si.fsorts[i]), ref)
 				}
@@ -755,6 +779,8 @@ func (f *frame) storeComps(addr ssa.Value, out *modSet) {
 	}
 	// class returns: comp ("" for objects), sort, object type, root ref value
 	// (nil when the ref is not a plain SSA value, e.g. a sub-object)
+	// nestedRoot: the object whose nested sub-struct the address points into
+	var nestedRoot ssa.Value
 	var class func(v ssa.Value) (string, string, types.Type, ssa.Value)
 	class = func(v ssa.Value) (string, string, types.Type, ssa.Value) {
 		switch a := v.(type) {
@@ -766,6 +792,9 @@ func (f *frame) storeComps(addr ssa.Value, out *modSet) {
 			if st, ok := ot.Underlying().(*types.Struct); ok {
 				ft := st.Field(a.Field).Type()
 				if _, ok := ft.Underlying().(*types.Struct); ok {
+					if ref != nil {
+						nestedRoot = ref
+					}
 					return "", "", ft, nil
 				}
 				si := f.sr().structSort(ot)
@@ -804,11 +833,16 @@ func (f *frame) storeComps(addr ssa.Value, out *modSet) {
 		return "?", "", nil, nil
 	}
 	c, cs, ot, ref := class(addr)
-	if c == "?" {
+	switch {
+	case c == "?":
 		out.star = true
-	} else if c != "" {
+	case c != "" && ref == nil && nestedRoot != nil && strings.HasPrefix(c, "H:"):
+		out.addSub(c, cs, nestedRoot)
+	case c != "":
 		out.addAt(c, cs, ref)
-	} else {
+	case ref == nil && nestedRoot != nil:
+		subComps(ot, nestedRoot)
+	default:
 		leafComps(ot, ref)
 	}
 }
